@@ -46,11 +46,14 @@ def np_asarray(eng, st, args, kwargs, e):
 
 
 def iround(eng, st, args, kwargs, e):
-    """np.round(x) / round(x): left as an uninterpreted function Real -> Int wrapped so that int(...) of it
-    is that integer.  No rounding-mode fact is used by any proof."""
+    """np.round(x[, decimals=0]) / round(x): round-half-to-even on the reals, given by its defining facts
+    |x - r| <= 1/2 and "r is even at a tie".  int(...) of it is that integer."""
     x = to_real(eng.num(args[0]))
     f = z3.Function("iround", REAL, INT)
-    return VNum(f(x))
+    r = f(x)
+    st.assume(z3.And(to_real(r) - x <= z3.RealVal("1/2"), x - to_real(r) <= z3.RealVal("1/2")))
+    st.assume(z3.Implies(z3.Or(to_real(r) - x == z3.RealVal("1/2"), x - to_real(r) == z3.RealVal("1/2")), r % 2 == 0))
+    return VNum(r)
 
 
 def bisect_right(eng, st, args, kwargs, e):
@@ -85,3 +88,28 @@ def row_copy(eng, st, args, kwargs, e):
     if isinstance(v, VNum):
         return VNum(v.z)     # a new value object: not `borrowed`
     return v
+
+
+def tagged(tag):
+    """A callee whose result is only identified (dispatch contracts): returns the string constant `tag`."""
+    def f(eng, st, args, kwargs, e):
+        if not eng.spec_mode:
+            cur = st.ghost.get("effects", VNum(z3.IntVal(0)))
+            st.ghost["effects"] = VNum(cur.z + 1)
+        return VStr(tag)
+    return f
+
+
+def np_linspace(eng, st, args, kwargs, e):
+    """np.linspace(a, b, num=n, endpoint=False): n points a + k*(b-a)/n (documented behaviour)."""
+    a, b = to_real(eng.num(args[0])), to_real(eng.num(args[1]))
+    n = eng.num(kwargs["num"] if "num" in kwargs else args[2])
+    endpoint = kwargs.get("endpoint")
+    ep = eng.truth(endpoint) if endpoint is not None else z3.BoolVal(True)
+    eng.oblige(st, f"np.linspace-nonneg@L{eng.cur_line}", "pre@call", n >= 0)
+    arr = fresh("linspace", z3.ArraySort(INT, REAL))
+    k = fresh("k", INT)
+    div = z3.If(ep, to_real(n) - 1, to_real(n))
+    st.assume(z3.ForAll([k], z3.Implies(z3.And(0 <= k, k < n), z3.Select(arr, k) * div == a * div + to_real(k) * (b - a)),
+                        patterns=[z3.Select(arr, k)]))
+    return VSeq(arr, n, "real")
